@@ -81,7 +81,7 @@ class Query:
 class Unit:
     def __init__(self, name, harness_cpp, main_c, repo_srcs=(), caps=None, cxx_defs=(), queries=(),
                  corpus=(), wrap=(), model_srcs=(), extra_clang=(), native_cxx=(), hints=None,
-                 private_public=False, native_link=(), inc=(), leak_on_unwind=False, extra_tus=(), obligations=()):
+                 private_public=False, native_link=(), inc=(), leak_on_unwind=False, extra_tus=(), obligations=(), ir2c_flags=()):
         self.name = name
         self.harness_cpp = harness_cpp      # path relative to /verif
         self.main_c = main_c                # path relative to /verif
@@ -98,6 +98,7 @@ class Unit:
         self.private_public = private_public
         self.native_link = list(native_link)
         self.leak_on_unwind = leak_on_unwind
+        self.ir2c_flags = list(ir2c_flags)
         self.extra_tus = list(extra_tus)      # [(path relative to /verif, [flags])]: further C++ TUs of the harness, each with its own -D flags
         self.obligations = list(obligations)  # [(name, path relative to /verif, [flags])]: must compile (static_asserts); a compile failure is the violation
         self.inc = [x for d_ in inc for x in ('-I', os.path.join(VERIF, d_))]
@@ -133,7 +134,7 @@ def build_model(u, work):
     allll = os.path.join(d, 'all.ll')
     sh(['llvm-link-14', '-S'] + lls + ['-o', allll])
     p = sh([sys.executable, os.path.join(TOOLS, 'ir2c.py'), allll, os.path.join(d, 'all.c'), os.path.join(d, 'all.h')] +
-           (['--leak-on-unwind'] if u.leak_on_unwind else []), check=False)
+           (['--leak-on-unwind'] if u.leak_on_unwind else []) + u.ir2c_flags, check=False)
     if p.returncode != 0:
         raise Inconclusive('ir2c: ' + p.stdout[-2000:])
     u.functions = encoded_functions(allll)
@@ -285,7 +286,7 @@ RES_RE = re.compile(r'^\[([^\]]+)\] (.*): (SUCCESS|FAILURE)$')
 
 
 def run_cbmc(u, q, defs, unwindset, timeout, log, verbosity=None, extra=()):
-    cmd = ['/usr/bin/time', '-f', 'RSSKB=%M', 'cbmc', os.path.join(u.dir, 'all.c'), os.path.join(TOOLS, 'ir2c_rt.c'),
+    cmd = ['/usr/bin/time', '-o', log + '.rss', '-f', 'RSSKB=%M', 'cbmc', os.path.join(u.dir, 'all.c'), os.path.join(TOOLS, 'ir2c_rt.c'),
            os.path.join(VERIF, u.main_c), '-I', TOOLS, '-I', u.dir] + u.inc + defs + CBMC_FLAGS + \
         ['--unwind', str(q.unwind)] + q.extra_cbmc + list(extra)
     if unwindset:
@@ -311,6 +312,7 @@ def run_cbmc(u, q, defs, unwindset, timeout, log, verbosity=None, extra=()):
     res = {'wall': round(time.time() - t0, 1), 'timeout': to, 'results': {}, 'rss_mb': 0, 'verdict': None,
            'solver_s': 0.0, 'vars': 0, 'clauses': 0, 'steps': 0, 'symex_s': 0.0}
     cur_trace = None
+    viol = None
     traces = {}
     with open(log, errors='replace') as lf:
         for line in lf:
@@ -323,13 +325,27 @@ def run_cbmc(u, q, defs, unwindset, timeout, log, verbosity=None, extra=()):
                 cur_trace = line[len('Trace for '):].rstrip(':')
                 traces[cur_trace] = {}
                 continue
+            if line.startswith('Counterexample:'):       # --stop-on-fail: one trace, the property is named after it
+                cur_trace = '__first_failure__'
+                traces[cur_trace] = {}
+                continue
+            if line.startswith('Violated property:') and cur_trace == '__first_failure__':
+                viol = 0
+                continue
+            if viol is not None:
+                viol += 1
+                if viol == 2:
+                    res['results']['__first_failure__'] = (line.strip(), 'FAILURE')
+                    viol = None
+                continue
             if cur_trace is not None:
                 mm = re.match(r'\s+vin\[(\d+)l?\]=(\d+)', line)
                 if mm:
                     traces[cur_trace][int(mm.group(1))] = int(mm.group(2))
                     continue
-            if line.startswith('VERIFICATION '):
-                res['verdict'] = line.split()[1]
+            mv = re.match(r'VERIFICATION (SUCCESSFUL|FAILED|ERROR)', line)
+            if mv:
+                res['verdict'] = mv.group(1)     # (the memory figure of /usr/bin/time used to share this file and could land on this very line)
             elif line.startswith('RSSKB='):
                 res['rss_mb'] = int(line[6:]) // 1024
             elif line.startswith('Runtime Solver:'):
@@ -348,6 +364,12 @@ def run_cbmc(u, q, defs, unwindset, timeout, log, verbosity=None, extra=()):
                 mm = re.match(r'(\d+) variables, (\d+) clauses', line)
                 if mm:
                     res['vars'], res['clauses'] = max(res['vars'], int(mm.group(1))), max(res['clauses'], int(mm.group(2)))
+    try:
+        mr = re.search(r'RSSKB=(\d+)', open(log + '.rss').read())
+        if mr:
+            res['rss_mb'] = int(mr.group(1)) // 1024
+    except OSError:
+        pass
     res['traces'] = {}
     for k, v in traces.items():
         lst = [v.get(i, 0) for i in range(max(v) + 1)] if v else []
@@ -370,13 +392,22 @@ def decide(u, q, defs, log_prefix, hints, note):
     solver = 0.0
     while True:
         log = '%s.r%d.log' % (log_prefix, rounds)
-        r = run_cbmc(u, q, defs, unwindset, q.timeout, log)
+        r = run_cbmc(u, q, defs, unwindset, min(q.timeout, int(os.environ.get('VERIF_TIMEOUT_CAP', '1000000'))), log)
         total_wall += r['wall']
         peak = max(peak, r['rss_mb'])
         solver += r['solver_s']
         base = {'wall': round(total_wall, 1), 'rss_mb': peak, 'rounds': rounds, 'solver_s': round(solver, 3),
                 'vars': r['vars'], 'clauses': r['clauses'], 'steps': r['steps'], 'n_props': len(r['results']), 'log': log}
         if r['timeout']:
+            # Some assertions may be hard to PROVE while another one has a cheap counterexample (C16 with a multiplicative mixer in the
+            # hash): before giving up, hunt for a first failure only (no witness twins, --stop-on-fail, short budget).
+            if not q.expect_fail and not q.trust_solver:
+                h = run_cbmc(u, q, [d_ for d_ in defs if d_ != '-DWITNESS'], unwindset, min(300, q.timeout), log + '.hunt', extra=['--stop-on-fail'])
+                ff = h['results'].get('__first_failure__')
+                if h['verdict'] == 'FAILED' and ff and 'unwinding assertion' not in ff[0] and not ff[0].startswith('witness: '):
+                    base['witnessed'] = []
+                    note['hunt'] = 'full query timed out after %ds; first failure found by a --stop-on-fail run in %.0fs' % (q.timeout, h['wall'])
+                    return dict(base, status='fails', failures=[('__first_failure__', ff[0], h['traces'].get('__first_failure__', []))], unwinding_incomplete=False)
             return dict(base, status='inconclusive', why='timeout after %ds' % q.timeout)
         if r['verdict'] is None:
             return dict(base, status='inconclusive', why='cbmc gave no verdict: ' + r.get('error', '')[-600:])
@@ -658,6 +689,10 @@ class Runner:
                 else:
                     rec['negative_control_refuted'] = True
                 continue
+            if r['status'] == 'fails' and any(d_.startswith('model limit:') for _, d_, _ in r['failures']):
+                # the run reached something the model does not interpret: every other counterexample of this query is untrustworthy
+                self.inconclusive.append('%s/%s: %s' % (u.name, q.name, [d_ for _, d_, _ in r['failures'] if d_.startswith('model limit:')][0]))
+                continue
             if r['status'] == 'fails':
                 seen = set()
                 for prop, desc, vin in r['failures']:
@@ -703,6 +738,10 @@ class Runner:
 
     def _replay(self, u, q, kf_defs, prop, desc, vin, rec, hang=False):
         defs = q.defs + kf_defs
+        if q.trust_solver and not hang and (desc.startswith('vstd model:') or desc.startswith('model limit:')):
+            # not a property failure: the run reached something the model does not interpret (e.g. synchronisation through atomics in C09)
+            self.inconclusive.append('%s/%s: %s' % (u.name, q.name, desc))
+            return
         if q.trust_solver and not hang:
             os.makedirs(os.path.join(EVID, 'replay'), exist_ok=True)
             path = os.path.join(EVID, 'replay', '%s_%s_%s_%d.json' % (self.prop, u.name, re.sub(r'\W', '_', q.name), len(self.violations)))
